@@ -65,6 +65,27 @@ def main():
         m = json.load(open(f))
         out.append("| %s | %s | %s | %s | %s |" % (os.path.basename(os.path.dirname(f)), m.get("property"), m.get("needs", "").replace("|", "/"),
                                                  m.get("caught_by", "?"), m.get("how", "").replace("|", "/")))
+    out.append("\n### G.6 Per property, as built: what is proved, how it is tied to the code, what is trusted\n")
+    man = json.load(open(os.path.join(V, "MANIFEST.json")))
+    mp = {e["id"]: e for e in man.get("properties", [])} if isinstance(man.get("properties"), list) else {}
+    for pid, c in sorted(props.items()):
+        out.append("**%s — %s**\n" % (pid, titles.get(pid, "")))
+        if c.get("level_text"):
+            out.append("* *Claim / level.* " + c["level_text"])
+        if c.get("explanation"):
+            out.append("* *Theorems.* " + c["explanation"])
+        if c.get("rule"):
+            out.append("* *Inputs of the correspondence run (differential test, not a proof).* " + c["rule"])
+        if c.get("rewrites"):
+            out.append("* *Source rewrites mounted by overlay (copy of the current file).* " + "; ".join(
+                "`%s` (%d substitution%s)" % (r["file"], len(r["subs"]), "" if len(r["subs"]) == 1 else "s") for r in c["rewrites"]))
+        if c.get("assumptions"):
+            out.append("* *Assumptions.* " + " | ".join(c["assumptions"]))
+        if c.get("trusted_base"):
+            out.append("* *Modelled by hand (trusted to the extent the correspondence run validates it).* " + " | ".join(c["trusted_base"]))
+        if c.get("level_note"):
+            out.append("* *Trusted base.* " + c["level_note"])
+        out.append("")
     text = "\n".join(out) + "\n"
     p = os.path.join(V, "DESIGN.md")
     s = open(p).read()
